@@ -174,6 +174,9 @@ DAEMON_SETS: dict[str, list[dict]] = {
     'obeys+cancellable': [{'temper': 'obeys', 'backoff': None, 'timeout': None}, {'temper': 'cancellable', 'backoff': 1, 'timeout': 1}],
     'cancellable-notimeout': [{'temper': 'cancellable', 'backoff': 1, 'timeout': None}],
     'obeys+obeys': [{'temper': 'obeys', 'backoff': 1, 'timeout': 2}, {'temper': 'obeys', 'backoff': None, 'timeout': 2}],
+    # slow to wind down: ignores the stop flag, exits only on the cancellation that follows a long backoff
+    'slowstop': [{'temper': 'cancellable', 'backoff': 3, 'timeout': 3}],
+    'slowstop+obeys': [{'temper': 'cancellable', 'backoff': 3, 'timeout': 2}, {'temper': 'obeys', 'backoff': 1, 'timeout': 2}],
 }
 STARTUPS = {
     'none': [], 'ok': [{'duration': 2, 'script': ['ok']}], 'slow': [{'duration': 6, 'script': ['ok']}],
@@ -370,6 +373,13 @@ def run_scenario(sc: dict) -> Result:
             # an object whose create handler is still running when the trigger comes
             w.run_for(max(0.0, at - 1))
             api.create(K, 'ns1', 'late', {'spec': {'late': True}})
+            w.run_for(at - w.now)
+        elif trig.get('delete_before') is not None:
+            # an object (with its daemons) is deleted shortly BEFORE the trigger: its daemons are mid-termination (stopper set
+            # for RESOURCE_DELETED by the object's worker, staged stop still in its backoff) when the operator is stopped
+            w.run_for(max(0.0, at - trig['delete_before']))
+            api.delete(K, 'ns1', 'obj0')
+            res.notes.append('object-deleted-before-the-trigger')
             w.run_for(at - w.now)
         elif at > 0:
             w.run_for(at)
@@ -981,6 +991,25 @@ def monitors(ctx: fw.Ctx, res: Result, tr: Translation) -> None:
                         ctx.fail('a daemon was still running when the cleanup handlers started', case,
                                  observed={'task': i['name'], 'finished_at_order': e['order'], 'cleanup_at_order': cl_order, **facts},
                                  sig='daemon-after-cleanup')
+        # the harness's own registry of daemon / timer invocations: none of this operator may still be running
+        flagged = {id(e2['task']) for e2 in res.events if e2['ev'] == 'done' and e2['order'] > cl_order and e2['task'] is not res.main
+                   and (tr.tasks.get(id(e2['task'])) or {}).get('kind') == 'daemon'}
+        runners_all = [e2 for e2 in res.events if e2['ev'] == 'new' and task_label(e2['task']).startswith('runner of ')]
+        for rn in runners_all:
+            facts = daemon_facts(res, tr, rn['task'], daemons)
+            d = facts.pop('entry')
+            if d is None or id(rn['task']) in flagged:
+                continue
+            if d['t'] <= cl_begin[0]['t'] and (d['ended'] is None or d['ended'] > cl_begin[0]['t']):
+                if facts['by_design']:
+                    ctx.count('observed', 'abandoned-daemon-alive-during-cleanup')
+                else:
+                    ctx.fail('a daemon was still running when the cleanup handlers started', case,
+                             observed={'task': task_label(rn['task']), 'invocation': {'object': d['name'], 'began': d['t'], 'ended': d['ended']},
+                                       'cleanup_began': cl_begin[0]['t'], **facts}, sig='daemon-after-cleanup')
+        for c in calls:
+            if c['kind'] == 'timer' and c['t'] <= cl_begin[0]['t'] and (c['ended'] is None or c['ended'] > cl_begin[0]['t']):
+                ctx.fail('a timer invocation was still running when the cleanup handlers started', case, observed=c['handler'], sig='timer-after-cleanup')
         late = [q for q in reqs if q.order > cl_order]
         if late:
             ctx.fail('API requests were made after the cleanup handlers started', case, observed=late[0].brief(), sig='api-after-cleanup')
@@ -1243,6 +1272,17 @@ def grid(ctx: fw.Ctx) -> list[dict]:
         for ds in ('none', 'obeys'):
             for at in (1, 2, 10, 30):
                 add(peering=True, daemons=ds, trigger={'kind': kind, 'at': at})
+    # 3a. a daemon that is mid-termination when the operator is stopped: its object was deleted shortly before the trigger
+    for ds in ('slowstop', 'slowstop+obeys', 'cancellable', 'obeys'):
+        for kind in ('stop', 'cancel'):
+            for before in (0.5, 1.5):
+                # (the trigger must come before the object's own worker reaches the cancellation stage of the per-object
+                #  termination, which Model/Lifecycle.v does not model: delete_before < cancellation_backoff)
+                if before < min(d['backoff'] or 99 for d in DAEMON_SETS[ds]):
+                    add(daemons=ds, objects=2, trigger={'kind': kind, 'at': 10, 'delete_before': before})
+        add(daemons=ds, objects=1, trigger={'kind': 'stop', 'via': 'signal', 'at': 10, 'delete_before': 0.5})
+        add(daemons=ds, objects=1, scanning=True, trigger={'kind': 'crd_error', 'at': 10, 'delete_before': 0.5})
+        add(daemons=ds, objects=1, cleanup='two', trigger={'kind': 'stop', 'at': 10, 'delete_before': 0.75})
     # 3b. peering with a slow API for the peering object: stop triggers while a keep-alive PATCH is in flight (applied by the
     #     server, not yet answered) — the very first one, a later one — and between two of them
     for lat in (2, 0.5):
@@ -1290,6 +1330,9 @@ def grid(ctx: fw.Ctx) -> list[dict]:
             if kind == 'crd_error':
                 sc['trigger']['at'] = max(sc['trigger']['at'], 9.0)
                 sc['startup'] = r.choice(['none', 'ok', 'two', 'all-retried-ok'])
+            if kind in ('stop', 'cancel') and sc['objects'] >= 1 and sc['trigger']['at'] >= 6 and r.random() < 0.25:
+                sc['trigger']['delete_before'] = r.choice([0.25, 0.5, 0.75])
+                sc['daemons'] = r.choice(['slowstop', 'slowstop+obeys', 'cancellable', 'obeys', 'obeys+cancellable'])
             if sc['peering'] and r.random() < 0.7:
                 sc['peering_latency'] = r.choice([0.5, 1, 2, 3])
                 if kind in ('stop', 'cancel', 'crd_error') and r.random() < 0.6:
